@@ -3,7 +3,7 @@ import copy
 
 
 def conc(name, src, threads, R, cflags=(), pre=('prologue',), post=('epilogue',), tso=0, unwind=3, desc='', wit=None,
-         solo_order=None, live=True, safe=True, live_R=None, timeout=900, extra=None, nslots=None, faults=0):
+         solo_order=None, live=True, safe=True, live_R=None, timeout=900, extra=None, nslots=None, faults=0, post_unwind=12, unwind_fn=None):
     """A concurrent obligation = up to two solver queries over the same encoding:
        <name>.safe : R symbolic rounds, executions in which every thread has finished (assume), then the oracle (post)
        <name>.live : R symbolic rounds, then a solo phase in which each thread in turn runs unpreempted until it finishes,
@@ -20,7 +20,7 @@ def conc(name, src, threads, R, cflags=(), pre=('prologue',), post=('epilogue',)
         return (f[0], f[1]) if isinstance(f, (list, tuple)) else (f, 0)
     plain = [pl(f) for f in list(pre) + list(post)]
     base = dict(src=src, cflags=list(cflags), nslots=ns, pre=list(pre), plain=plain, threads=ths, rounds=R, unwind=unwind,
-                tso=tso, faults=faults, unwind_fn={'^F0_': 12}, timeout=timeout, rt_defines={'RT_NGHOST': 64})
+                tso=tso, faults=faults, unwind_fn=dict({'^F0_': post_unwind}, **(unwind_fn or {})), timeout=timeout, rt_defines={'RT_NGHOST': 64})
     if extra:
         base.update(copy.deepcopy(extra))
     out = []
